@@ -137,6 +137,18 @@ fn request_for(s: &StepSpec, lim_out: f64, lim_regen: f64, lim_brake: f64) -> f6
     }
 }
 
+/// default hybrid locomotive number `h` of a case: the shipped one starts with a full battery
+/// and cannot regenerate, so every other one starts half full
+fn hybrid_unit(case: &PtCase, h: usize) -> Locomotive {
+    let mut hel = Locomotive::default_hybrid_electric_loco();
+    if (h + case.steps.len()) % 2 == 1 {
+        if let Some(res) = hel.reversible_energy_storage_mut() {
+            res.state.soc = uc::R * 0.5;
+        }
+    }
+    hel
+}
+
 pub fn drive(case: &PtCase) -> PtTrace {
     let mut tr = PtTrace { steps: vec![], build_err: None, con_energy_fuel: 0.0, con_net_energy_res: 0.0, final_units: vec![], final_con: Vals::new() };
     // time on the trace the simulation objects would be given: every step's dt is the
@@ -152,8 +164,8 @@ pub fn drive(case: &PtCase) -> PtTrace {
         };
         if case.hybrids > 0 {
             let mut v = con.loco_vec.clone();
-            for _ in 0..case.hybrids {
-                v.push(Locomotive::default_hybrid_electric_loco());
+            for h in 0..case.hybrids {
+                v.push(hybrid_unit(case, h));
             }
             con = Consist::new(v, None, con.pdct.clone());
         }
@@ -327,8 +339,8 @@ pub fn sim_differential(case: &PtCase, tr: &PtTrace, cx: &mut Ctx) {
         let Ok(mut c) = build_consist(&case.units, case.pdct, None) else { return };
         if case.hybrids > 0 {
             let mut v = c.loco_vec.clone();
-            for _ in 0..case.hybrids {
-                v.push(Locomotive::default_hybrid_electric_loco());
+            for h in 0..case.hybrids {
+                v.push(hybrid_unit(case, h));
             }
             c = Consist::new(v, None, c.pdct.clone());
         }
@@ -551,6 +563,7 @@ pub fn check_c08(case: &PtCase, cx: &mut Ctx) {
     let (n_acc, _t, _b, regen) = common_labels(case, &tr, cx);
     let eps = |x: f64| 1e-9 * x.abs() + 1e-9;
     let mut prev: Vec<Vals> = vec![];
+    let mut prev_con: Option<Vals> = None;
     let mut engine_off_seen = false;
     for (k, s) in tr.steps.iter().enumerate() {
         if !s.accepted {
@@ -631,6 +644,21 @@ pub fn check_c08(case: &PtCase, cx: &mut Ctx) {
                     cx.fail("C08|bound|engine_off.loco_aux>0", format!("step {k} unit {u}: {:e}", g(v, "loco.pwr_aux")));
                 }
             }
+        }
+        // the consist's own fuel figures (sums the consist computes itself, also over hybrid
+        // units): fuel power is never negative, cumulative fuel never decreases
+        if case.consist && has(&s.con_post, "con.pwr_fuel") {
+            let pf = g(&s.con_post, "con.pwr_fuel");
+            if !(pf >= -eps(pf)) {
+                cx.fail("C08|bound|consist.pwr_fuel<0", format!("step {k}: consist reports fuel power {pf:e}"));
+            }
+            if let Some(pc) = prev_con.as_ref() {
+                let (a, b) = (g(pc, "con.energy_fuel"), g(&s.con_post, "con.energy_fuel"));
+                if !(b >= a - eps(a)) {
+                    cx.fail("C08|order|consist.energy_fuel-decreased", format!("step {k}: {a:e} -> {b:e}"));
+                }
+            }
+            prev_con = Some(s.con_post.clone());
         }
         prev = s.post.clone();
     }
